@@ -91,6 +91,7 @@ theorem archOK_congr (w w' : World) (h : ArchOK w) (ha : w'.arts = w.arts) (hm :
   · intro ids i hi; rw [ha, hart]; rw [hc] at hi; exact h.cache ids i hi
   · intro j hj; rw [ha] at hj; rw [hart]; exact h.sorted j hj
   · intro j hj; rw [ha] at hj; rw [hart]; exact h.cols j hj
+  · intro j hj; rw [ha] at hj; rw [hart]; exact h.built j hj
 
 theorem art_of_set (w w' : World) (a : Nat) (A' : Arch) (ha : w'.arts = w.arts.set a A') (j : Nat) :
     w'.art j = if a = j ∧ a < w.arts.length then A' else w.art j := by
@@ -117,6 +118,7 @@ theorem archOK_data (w w' : World) (a : Nat) (A' : Arch) (h : ArchOK w)
   · intro ids i hi; rw [hlen, (hart i).1]; rw [hc] at hi; exact h.cache ids i hi
   · intro j hj; rw [hlen] at hj; rw [(hart j).1]; exact h.sorted j hj
   · intro j hj; rw [hlen] at hj; rw [(hart j).1, (hart j).2.2]; exact h.cols j hj
+  · intro j hj; rw [hlen] at hj; rw [(hart j).1]; exact h.built j hj
 
 /-- `EntOK` is carried along an extension of the archetype table -/
 theorem entOK_ext (w w' : World) (hs : List Entity) (t : MV.Spec.ECS.St) (h : EntOK w hs t) (e : Ext w w') :
